@@ -839,7 +839,7 @@ class _ConsumerFailed(Exception):
     pass
 
 
-def abandon_walk(make_gen, mode: str, n_expected: int = 0):
+def abandon_walk(make_gen, mode: str, n_expected: int = 0, meanwhile=()):
     """Start the walk make_gen() and give it up the way `mode` says.  Returns None, or for 'interleaved' the pair
     (items of a second walk started and exhausted while the first was suspended, all items of the first walk)."""
     if mode in ('take0', 'take1', 'take2', 'all-but-one'):
@@ -871,6 +871,9 @@ def abandon_walk(make_gen, mode: str, n_expected: int = 0):
         g = make_gen()
         first = [f.path for f in itertools.islice(g, 1)]
         second = [f.path for f in make_gen()]
+        for other in meanwhile:       # walks of other folders / other objects while the first walk is suspended
+            for _f in other():
+                pass
         return second, first + [f.path for f in g]
     else:
         raise ValueError(mode)
@@ -896,7 +899,7 @@ def walk_history_case(fs, name: str, files, folder: str, fcls: str, mode: str, a
     rep = {'op': 'walk-history', 'backend': name, 'files': [(a, b.decode()) for a, b in files], 'folder': folder, 'folder_class': fcls,
            'mode': mode, 'then_walk': again, 'first_walk_is_iter': use_iter, 'expected': exp}
     try:
-        inter = abandon_walk(make, mode, len(exp))
+        inter = abandon_walk(make, mode, len(exp), (lambda: fs.walk_folder(again), lambda: fs.walk_folder(''), lambda: fs.walk_folder('nonexistent')))
     except Exception as e:      # noqa: BLE001 - whatever comes out of an abandoned walk other than what was thrown in
         return [(f'walk-{name}-abandoned-walk-raises', f'{name}: giving up a walk of {folder!r} ({mode}) raised {type(e).__name__}: {e}', rep)]
     if inter is not None:
@@ -1025,6 +1028,17 @@ def check_backends(root: str, files, rng: random.Random, stats=None, hist=None) 
                 if ex is not False or got is not None or op is not None:
                     out.append((f'lookup-{name}-phantom', f'{name}: {q!r} is not a stored file but exists={ex!r} get={got!r}',
                                 {'op': 'lookup', 'backend': name, 'files': fj, 'query': q, 'expected_bytes': None}))
+                    continue
+                # error paths: every form has now failed once for q (and fails once more here); what a failed call
+                # leaves behind must not make the name exist afterwards (the walks below must not list it either)
+                forms = read_forms(fs, q, 'utf8')
+                again = impl_lookup(fs, q)
+                if stats is not None:
+                    stats('lookup_observations', 10)
+                if forms_problems(forms, None) or again != (False, None, None):
+                    out.append((f'lookup-{name}-phantom-after-failed-lookup', f'{name}: {q!r} is not a stored file; after lookups of it failed: '
+                                f'{forms!r}, then exists/get/open = {again!r}',
+                                {'op': 'lookup', 'backend': name, 'files': fj, 'query': q, 'expected_bytes': None, 'history': 'the same lookup repeated after it failed in every form'}))
         # raw: exact-case names, either slash kind, redundant separators / dot segments
         rawq = [(nm, 'exact', nm) for nm, _ in files]
         rawq += [(nm.replace('/', '\\'), 'slash-variant', nm) for nm, _ in files if '/' in nm]
@@ -1639,7 +1653,7 @@ def check_chain(root: str, sets, members, rng: random.Random, stats=None, seed=N
                 hrep = dict(rep, folder=folder, history=[f'chain.{which}({folder!r}) given up ({mode})', f'complete chain.walk_folder({folder!r})'])
                 exp = chain_exp(folder, order)
                 try:
-                    inter = abandon_walk(make, mode, len(exp))
+                    inter = abandon_walk(make, mode, len(exp), (lambda: ch.walk_folder(''), lambda: ch.walk_folder('nonexistent')))
                     after = [fl.path for fl in ch.walk_folder(folder)]
                 except Exception as e:      # noqa: BLE001
                     out.append(('chain-walk-abandoned-walk-raises', f'chain: giving up {which}({folder!r}) ({mode}) and walking again raised {type(e).__name__}: {e}', hrep))
@@ -2026,6 +2040,7 @@ def run(ck: Ck) -> None:
     _tb = time.time()
     failed_state: list[str] = []
     fut_state = None
+    sobs: dict = {}
     if built_s:
         from concurrent.futures import ThreadPoolExecutor as _TPE
         spool = _TPE(max_workers=1)
@@ -2038,8 +2053,10 @@ def run(ck: Ck) -> None:
         sobs['filesys_helpers_keep_no_state'] = 'census_clean helpers_census'
         sobs['vpk_reader_keeps_no_state'] = 'census_clean vpk_reader_census'
         sobs['census_hypothesis_holds_for_the_generated_census'] = f'state_ok {TODAY_CENSUS}'
-        failed_state = [oname for oname, ok in ck.instance_obligations(STATE_IMPORTS, sobs, 'inst_state_obs').items() if not ok]
         ck.extra['state_census_stores'] = ck.extra.get('translated', {}).get('FsState_gen', {}).get('stores', {})
+        if not built:
+            # the shape translator failed closed: the census is judged on its own
+            failed_state = [oname for oname, ok in ck.instance_obligations(STATE_IMPORTS, sobs, 'inst_state_obs').items() if not ok]
     if built:
         # the two instance theorems are checked by their own coqc processes while the main thread goes on
         from concurrent.futures import ThreadPoolExecutor
@@ -2086,7 +2103,12 @@ def run(ck: Ck) -> None:
         obs['vpk_open_bin_reads_whole_file'] = 'cexpr_whole false vpk_open_bin_content'
         obs['vpk_open_str_reads_whole_file'] = 'cexpr_whole false vpk_open_str_content'
         obs['vpk_reader_returns_preload_and_exact_rest'] = 'rexpr_whole None false vpk_reader'
-        failed_inst = [oname for oname, ok in ck.instance_obligations(IMPORTS, obs).items() if not ok]
+        if built_s:
+            # one evaluation for the shape obligations and the census obligations
+            obs.update(sobs)
+        res_inst = ck.instance_obligations(IMPORTS + (STATE_IMPORTS[3:] if built_s else []), obs)
+        failed_inst = [oname for oname, ok in res_inst.items() if not ok and oname not in sobs]
+        failed_state = [oname for oname, ok in res_inst.items() if not ok and oname in sobs]
         _td = time.time()
         def collect_instance_theorems() -> None:
             # the composition theorem instantiated at the generated configuration (type-checks only if today's chain
